@@ -167,6 +167,27 @@ class FloatDom(Dom):
         return SymFloat(v)
 
 
+class DecFloatDom(Dom):
+    """finite non-zero float given by its shortest decimal representation: n significant digits (first and last
+    non-zero, all symbolic), decimal exponent e10 of the first digit, symbolic sign. Natively: float('d.ddde<e10>')."""
+
+    def __init__(self, n, e10, signed=True):
+        self.n, self.e10, self.signed = n, e10, signed
+
+    def make(self, eng, name):
+        ds = []
+        for i in range(self.n):
+            d = z3.Int(f"{name}.d{i}")
+            lo = 1 if i == 0 or i == self.n - 1 else 0
+            eng.add_fact(z3.And(d >= lo, d <= 9))
+            ds.append(SymInt(d))
+        neg = SymBool(z3.Bool(f"{name}.neg")) if self.signed else False
+        return SymFloat(dec=(neg, ds, self.e10))
+
+    def describe(self):
+        return f"DecFloat(digits={self.n}, e10={self.e10})"
+
+
 class Cases(Dom):
     """concrete enumeration: every value is explored as a separate root (exhaustive)"""
 
